@@ -113,6 +113,10 @@ func runCase(c *core.Ctx, i int) {
 		nextStagesCase(c, rng)
 		return
 	}
+	if i%31 == 17 {
+		timePlanCase(c, rng)
+		return
+	}
 	if i%23 == 7 {
 		loopbackCase(c, rng)
 		return
